@@ -619,11 +619,11 @@ impl<'a> Parser<'a> {
     fn parse_regex_mode(&mut self) -> ParserResult<RegexMode> {
         let mut regex_mode = RegexMode::Captures;
         match self.current() {
-            Token::Identifier(identifier) if identifier == "split" => {
+            Token::Identifier(identifier) if identifier.eq_ignore_ascii_case("split") => {
                 regex_mode = RegexMode::Split;
                 self.next()?;
             }
-            Token::Identifier(identifier) if identifier == "match" => {
+            Token::Identifier(identifier) if identifier.eq_ignore_ascii_case("match") => {
                 regex_mode = RegexMode::Captures;
                 self.next()?;
             }
